@@ -328,7 +328,7 @@ namespace bloch::runtime {
         void runCycleCollector();
         void markValue(const Value& v);
         void markObject(const std::shared_ptr<Object>& obj);
-        void destroyObject(Object* obj, bool runUserDestructor);
+        void destroyObject(const std::shared_ptr<Object>& self, bool runUserDestructor);
         Value callMethod(RuntimeMethod* method, RuntimeClass* staticDispatchClass,
                          const std::shared_ptr<Object>& receiver, const std::vector<Value>& args);
         void runConstructorChain(RuntimeClass* cls, const std::shared_ptr<Object>& obj,
